@@ -25,7 +25,7 @@ def run(prog, world, sem, rep):
              "StakingMsg::Delegate only on the bond path, every WasmMsg::Execute carries no funds, no other coin-moving message kinds", 15)
     rep.rule("C02.f", "the planners place everything: the hub discards the delegation planner's reported remainder, so the planners' distribution "
              "loops may leave early (other than by exhausting the validator list) only on the edge where the amount still to place was observed "
-             "to be zero", 3)
+             "to be zero; a validator is passed over only by comparing its stake with the very share its entry (share - stake) is computed from", 3)
     rep.rule("C02.g", "conversion conserves the booked total: a Convert hook lowers the pool of the token received and raises the pool of the "
              "token minted by the identical coin value (one expression), so bSei pool + stSei pool is unchanged by it", 2)
     rep.rule("C02.e", "slashing first: every pricing handler calls the resync function and every write of STATE in the handler happens after it", 5)
@@ -227,6 +227,49 @@ def run(prog, world, sem, rep):
                         continue
                     for (nm_, c_) in _droppers(world, src_):
                         bad.append("line %d (the loop walks the validators through `%s`)" % (blk.term.line, nm_))
+        # the skip test and the entry agree on the share: a validator is passed over by comparing its stake with the very value T its
+        # entry T - stake is computed from (comparing with the floor share while topping up to floor + remainder coin loses that coin)
+        def _core(x):
+            x = world.ident(x, expand_ws=False)
+            while x.op == "call" and x.info.rsplit("::", 1)[-1] in ("from", "into", "u128") and len(x.args) == 1:
+                x = world.ident(x.args[0], expand_ws=False)
+            return x
+
+        def _stake(x):
+            x = _core(x)
+            return x if (x.op == "field" and x.info[0] == "total_delegated") else None
+        subs = []
+        for blk in pv.body.calls():
+            if blk.idx not in pv.blocks or not pv.be.cfg.in_loop(blk.idx):
+                continue
+            e_ = pv.be.ev_call(blk.idx, blk.term)
+            aa_ = arith_args(e_, "Sub") if e_.op in ("bin", "call") else None
+            if aa_ is not None and _stake(aa_[1]) is not None and _stake(aa_[0]) is None:
+                subs.append((_core(aa_[0]), _stake(aa_[1])))
+        for blk in pv.body.blocks:     # ... and the same subtraction on plain integers (a MIR statement, not a call)
+            if blk.cleanup or blk.idx not in pv.blocks or not pv.be.cfg.in_loop(blk.idx):
+                continue
+            for i_, st0 in enumerate(blk.stmts):
+                if st0.kind == "assign" and st0.rv is not None and st0.rv.kind == "bin":
+                    e_ = pv.be.ev_rvalue(blk.idx, i_, st0.rv)
+                    if e_.op == "bin" and e_.info in ("Sub", "SubWithOverflow") and len(e_.args) == 2 and _stake(e_.args[1]) is not None and _stake(e_.args[0]) is None:
+                        subs.append((_core(e_.args[0]), _stake(e_.args[1])))
+        for blk in pv.body.blocks:
+            if blk.cleanup or blk.term.kind != "switch" or blk.idx not in pv.blocks or not pv.be.cfg.in_loop(blk.idx):
+                continue
+            for succ, fl in sem.edge_facts(pv.be, blk.idx).items():
+                for f in fl:
+                    if f[0] != "cmp":
+                        continue
+                    for a_, b_ in ((f[2], f[3]), (f[3], f[2])):
+                        st_ = _stake(a_)
+                        if st_ is None:
+                            continue
+                        for (T_, d_) in subs:
+                            if d_ == st_ and _core(b_) != T_ and not find(_core(b_), lambda y: y.op == "rec"):
+                                msg_ = "line %d (the stake is compared with %s but the entry is %s - stake)" % (blk.term.line, show(_core(b_), 3), show(T_, 3))
+                                if msg_ not in bad:
+                                    bad.append(msg_)
         rep.ob("C02.f", "%s distributes until nothing is left" % pname, not bad and (not used or pname != "calculate_delegations"),
                "the distribution loop can be left at %s while an amount is still unplaced (the hub ignores the remainder): coins stay undelegated / unaccounted" % sorted(set(bad))
                if bad else "%d loop(s); early exits only when the remaining amount is zero" % seen_loops, where(pv.body), key="C02.f | %s" % pname)
